@@ -221,11 +221,15 @@ def h_step(X, cap, thorough):
     store = _new_store(cap)
     model = Model()
     name = _name(X, "req")
-    via = X.choose("via", ["cn", "san", "cn+san"] if thorough else ["cn", "san"])
+    via = X.choose("via", ["cn", "san"])
     cn = name if via != "san" else None
     sans = [name] if via != "cn" else []
     sans_form = X.choose("sans_form", ["list", "generalnames", "legacy-str"]) if (sans and thorough) else ("list" if via == "cn" else "generalnames")
-    state = X.choose("state", STATES if thorough else STATES[:1] + STATES[3:])
+    ncustom = X.choose("customs", 3 if thorough else 2)
+    if thorough:  # all queue shapes without custom entries, three representative ones with them
+        state = X.choose("state", STATES if ncustom == 0 else [STATES[0], STATES[3], STATES[4]])
+    else:
+        state = X.choose("state", STATES[:1] + STATES[3:])
     # --- pre-state: generated part, written directly
     L = {"empty": 0, "one": 1, "cap-1": cap - 1}.get(state, cap)
     fill = []
@@ -244,10 +248,9 @@ def h_step(X, cap, thorough):
         if (kc, ks) == (cn, x509.GeneralNames([_gn(s) for s in sans])):
             pre_hit = e
     # --- pre-state: custom registrations through the real add_cert
-    ncustom = X.choose("customs", 3 if thorough else 2)
     for j in range(ncustom):
         pat = _pattern(X, f"pat{j}") if j == 0 else X.choose("pat1", ["*", "*.c", "a", "b.a"])
-        if thorough:
+        if thorough and ncustom == 1:
             how = X.choose(f"how{j}", ["names-arg", "cert-cn", "cert-san"])
         else:  # quick: registration route fixed per pattern shape (all three routes still occur)
             how = "names-arg" if pat == "*" else ("cert-san" if pat.startswith("*.") else "cert-cn")
@@ -307,9 +310,9 @@ def obligations(tier):
     thorough = tier != "quick"
     stubs = ["certs.dummy_cert -> record stub (cn, sans, serial)"]
     small = 3
-    step_bounds = ("requested name: every name of <=3 labels over {a,b,c} (39), passed as CN / single SAN" + (" / both" if thorough else "") +
+    step_bounds = ("requested name: every name of <=3 labels over {a,b,c} (39), passed as CN / single SAN" +
                    (" (SAN as list, GeneralNames or legacy list[str])" if thorough else "") + "; pre-state: queue length " +
-                   ("0, 1, CAP-1, CAP" if thorough else "0, CAP") + ", optional pre-generated entry for the same key at the oldest/newest slot or another key at the oldest slot; "
+                   ("0, 1, CAP-1, CAP (0, CAP when custom entries exist)" if thorough else "0, CAP") + ", optional pre-generated entry for the same key at the oldest/newest slot or another key at the oldest slot; "
                    "custom registrations: " + ("0-2" if thorough else "0-1") + " (first: any of 39 exact names, 12 '*.suffix' forms, '*'; registered via names argument, certificate CN or certificate SAN" + ("" if thorough else ", route fixed per pattern shape") + ")")
     k_small = 4 if not thorough else 5
     obs = [
